@@ -193,18 +193,29 @@ def isReadInput (lines : List Str) : Bool :=
 /-- text of a line in front of a `$` comment -/
 def beforeDollar (l : Str) : Str := l.takeWhile (· != '$')
 
-/-- *Abstraction* of `ReadParser` + `ReadInput.file_name`.  The SLY lexer/parser is not modelled; on the
-    word level the accepted shape is `read file <name>` where `=` counts as a blank, `&`, `$` comments and
-    C comment lines are padding, and keywords compare case-insensitively.  Everything else whose first
-    word is `read` is rejected (`ParsingError`).  The harness feeds only shapes on which this abstraction
-    was validated against the real parser (see design_notes/C20.md). -/
+/-- the words of one stored line as a parser sees them: blank-separated; the `$` comment and a final `&` are padding -/
+def lineWordsM (r : Str) : List Str :=
+  let d := beforeDollar r
+  if endsWith (rstrip d) [' ', '&'] then (pySplit d).dropLast else pySplit d
+
+/-- the words of an input: C comment lines are padding -/
+def inputWordsM (lines : List Str) : List Str := (lines.filter (fun l => !isComment l)).flatMap lineWordsM
+
+/-- in key/value position `=` separates like a blank -/
+def splitEqM (w : Str) : List Str := pySplit (w.map (fun c => if c == '=' then ' ' else c))
+
+/-- *Abstraction* of `ReadParser` + `ReadInput.file_name`, for an input whose first word is `read`.
+    The SLY lexer/parser is not modelled; on the word level the accepted shape is `read file <name>` where `=`
+    counts as a blank, `&`, `$` comments and C comment lines are padding, and keywords compare
+    case-insensitively.  Everything else is rejected (`ParsingError`).  The harness feeds only shapes on which
+    this abstraction was validated against the real parser (see design_notes/C20.md). -/
 def parseRead (lines : List Str) : Option Str :=
-  let data := (lines.filter (fun l => !isComment l)).map beforeDollar
-  let text : Str := data.foldr (fun l acc => l ++ ' ' :: acc) []
-  let ws := (pySplit (text.map (fun c => if c == '=' then ' ' else c))).filter (· != ['&'])
-  match ws with
-  | [r, f, name] => if lower r == ['r', 'e', 'a', 'd'] && lower f == ['f', 'i', 'l', 'e'] then some name else Option.none
-  | _ => Option.none
+  match inputWordsM lines with
+  | [] => Option.none
+  | _ :: rest =>
+    match rest.flatMap splitEqM with
+    | [f, name] => if lower f == ['f', 'i', 'l', 'e'] then some name else Option.none
+    | _ => Option.none
 
 /-! ## `input_syntax_reader.py` -/
 
